@@ -11,7 +11,7 @@ import subprocess
 import sys
 
 HERE = os.path.dirname(os.path.dirname(os.path.abspath(__file__)))
-SRC = sys.argv[1] if len(sys.argv) > 1 else "/tmp/wt"
+ROOTS = sys.argv[1:] or ["/tmp/wt", "/tmp/wt2", "/tmp/wt3"]
 BUILT = [l.strip() for l in open(os.path.join(HERE, "tools", "built.txt")) if l.strip()]
 
 
@@ -36,11 +36,30 @@ def main():
     out_root = os.path.join(HERE, "seeded")
     os.makedirs(out_root, exist_ok=True)
     rows = []
-    for prop in sorted(os.listdir(SRC)):
-        sd = os.path.join(SRC, prop, "_seed")
-        if not os.path.isdir(sd):
+    # re-measure the seeds that are already committed (their scratch origin may be gone)
+    done = set()
+    for d in sorted(os.listdir(out_root)):
+        mp = os.path.join(out_root, d, "meta.json")
+        if os.path.isfile(mp):
+            meta = json.load(open(mp))
+            hits = run_checks(os.path.join(out_root, d, "patch.diff"))
+            meta["detected_by"], meta["reports"] = sorted(hits), hits
+            json.dump(meta, open(mp, "w"), indent=1)
+            rows.append((meta["property"], meta["name"], sorted(hits)))
+            done.add(d)
+            print(meta["property"], meta["name"], "->", sorted(hits) or "MISSED")
+    pairs = []
+    for SRC in ROOTS:
+        if not os.path.isdir(SRC):
             continue
+        for prop in sorted(os.listdir(SRC)):
+            sd = os.path.join(SRC, prop, "_seed")
+            if os.path.isdir(sd):
+                pairs.append((SRC, prop, sd))
+    for SRC, prop, sd in pairs:
         for name in sorted(os.listdir(sd)):
+            if f"{prop}_{name}" in done:
+                continue
             d = os.path.join(sd, name)
             cj = os.path.join(d, "confirm.json")
             if not (os.path.isfile(os.path.join(d, "patch.diff")) and os.path.isfile(cj)):
@@ -61,7 +80,9 @@ def main():
                 "property": prop,
                 "name": name,
                 "origin": "written by an independent sub-agent that saw only the property "
-                          "text and a scratch worktree of /repo (nothing from /verif)",
+                          "text and a scratch worktree of /repo (nothing from /verif)"
+                          + ("; second round: told which earlier seeds to avoid repeating"
+                             if SRC.endswith("wt2") else ""),
                 "needs_to_manifest": _needs(notes),
                 "confirmed_by_me": {
                     "how": "tools/confirm_seed.sh in a fresh scratch worktree of /repo: demo at "
